@@ -95,9 +95,59 @@ for op in ('put_durable', 'delete_durable'):
 if logged == 0:
     ck.inconclusive.append('vacuous: no path logged a durable write')
 
+# ------------------------------------------------------------------ D2: a checkpoint snapshots and truncates under one hold of the log lock
+ck.declare('D2_checkpoint_snapshot_under_the_log_lock', 'checkpoint(path) with the WAL configured, log holding 0..1 records',
+           'the state is saved while the log lock is held, and that hold lasts until the log has been truncated: no durable write can be logged and applied after the snapshot was taken and then be cut off by the truncation')
+
+
+def ov_save(c):
+    mx = wal_mutex(c.st)
+    c.st.notes.append(('save', bool(getattr(mx, 'held', [])), id(mx)))
+    return ok(UNIT, 'Result<(), SnapshotFormatError>')
+
+
+def ov_mutex_lock(c):
+    from mirsym.models_std import m_lock_w
+    c.st.notes.append(('wal_lock_acquired',))
+    return m_lock_w(c)
+
+
+ex.extra_models['SlabRouter::save_to_file'] = ov_save
+ex.extra_models['Mutex::lock'] = ov_mutex_lock
+cps = 0
+for nrec in (0, 1):
+    st = ex.new_state()
+    st.env['codec_len'] = 2
+    states = [o[0] for o in scl.open(st, 'checkpoint wal') if o[1] is not None]
+    for i in range(nrec):
+        nxt = []
+        for s_ in states:
+            nxt += [a[0] for a in scl.append(s_, s_.fresh('WalEntry', f'pre{i}'), 'pre-record') if a[1] is None]
+        states = nxt
+    for s_ in states:
+        walobj = s_.roots['wal'].load(s_)
+        router = Struct('SlabRouter', {P.field('SlabRouter', 'wal'): _some(Struct('Mutex', {'data': Cell(val=walobj)}), 'Option<Mutex<TensorWal>>')}, lazy='R')
+        s_.roots['router'] = router
+        pre_len = len(scl.file(s_).data)
+        # record every release of the log lock between the save and the truncation
+        res = scl.run(s_, 'SlabRouter::checkpoint', [ref(router), ref(Str(text='snap'))])
+        ck.note_path_problem(res, f'checkpoint records={nrec}')
+        for r in res:
+            wit = lambda m, nrec=nrec: {'router_op': 'checkpoint', 'key_class': 'Metadata', 'records': nrec}
+            if r.status != 'return' or r.retval.variant != 'Ok':
+                continue
+            cps += 1
+            saves = [x for x in r.st.notes if x[0] == 'save']
+            good = len(saves) == 1 and saves[0][1]
+            # one continuous hold: the lock is taken exactly once on the path (a second acquisition would mean it was released in between)
+            good = good and len([x for x in r.st.notes if x[0] == 'wal_lock_acquired']) <= 1
+            ck.require(ex, 'D2_checkpoint_snapshot_under_the_log_lock', r.pc, None, z3.BoolVal(bool(good)), wit, lambda m, w: 'snapshot-outside-log-lock')
+if cps == 0:
+    ck.inconclusive.append('D2 vacuous: checkpoint never succeeded')
+
 for v in ck.violations:
     w = v['witness']
-    rep = Replay.call({'op': 'durable_order', 'router_op': w['router_op'], 'key_class': w['key_class']})
+    rep = Replay.call({'op': 'checkpoint_race', 'records': w.get('records', 1)} if w['router_op'] == 'checkpoint' else {'op': 'durable_order', 'router_op': w['router_op'], 'key_class': w['key_class']})
     v['native'] = rep
     v['replayed'] = rep.get('violates')
 ck.functions += ['SlabRouter::put_durable', 'SlabRouter::delete_durable', 'TensorWal::append']
